@@ -60,6 +60,11 @@ static int64_t cv_narrow(int64_t v, int width, int is_unsigned) {
   if (width == 2) return is_unsigned ? (int64_t)(uint16_t)v : (int64_t)(int16_t)v;
   return is_unsigned ? (int64_t)(uint8_t)v : (int64_t)(int8_t)v;
 }
+#define CV_MAXOUT 96
+static int cv_outs[CV_MAXOUT]; static int cv_out_n; static int cv_spec_seen;
+static void cv_log(int x) { if (cv_out_n < CV_MAXOUT) cv_outs[cv_out_n] = x; cv_out_n++; }
+static int cv_is_conv(char c) { const char* L = "diuoxXfFeEgGaAcsp$"; for (int k = 0; L[k] != 0; k++) if (L[k] == c) return 1; return 0; }
+static int cv_spec_piece(int a) { for (int p = 0; p < NPIECES; p++) if (piece_kind[p] != K_LIT && piece_kind[p] != K_PCT && piece_arg[p] == a) return p; return 0; }
 static int cv_roundtrip; static int cv_to_calls; static double gh_f; static int64_t gh_i; static int gh_n;
 int cv_format_to(var self, int pos, const char* fmt, ...) {
   if (cv_roundtrip) {   /* C15 writer side: libc prints the argument with the width the conversion names (assumed); the text stands for that value */
@@ -73,30 +78,45 @@ int cv_format_to(var self, int pos, const char* fmt, ...) {
     __CPROVER_assert(self == out && pos == in_pos, "[C15] the value is written to the sink at the given position");
     return gh_n;
   }
-  __CPROVER_assert(cv_piece < NPIECES, "[C14] no more pieces than the format has");
-  int p = cv_piece++;
+  /* C14: the sink tokenises whatever format text it is handed (any grouping of literal text and specifications into calls is
+   * accepted) and appends to the abstract output: one entry per literal character (%% counts as the character %), one entry per
+   * conversion specification, which must be the next specification of the format, verbatim, with its own argument fetched through
+   * the accessor the conversion letter names. It returns what libc returns: one per literal character plus the (arbitrary) length
+   * of each converted value. */
   __CPROVER_assert(self == out && pos == cv_running, "[C14] every piece goes to the sink at the position where the previous one ended");
-  __CPROVER_assert(cv_streq(fmt, piece_text[p]), "[C14] literal runs, %% and each conversion specification reach the sink verbatim and NUL-terminated");
-  va_list va; va_start(va, fmt);
-  int a = piece_arg[p];
-  if (piece_kind[p] == K_INT || piece_kind[p] == K_CHR) { int64_t v = va_arg(va, int64_t); __CPROVER_assert(v == in_i[a], "[C14] an integer / character conversion receives c_int of its argument"); }
-  if (piece_kind[p] == K_FLT) {
-    int big = 0; for (size_t i = 0; fmt[i] != 0; i++) if (fmt[i] == 'L') big = 1;
-    /* libc reads the C value the specification names: a long double under the L length modifier, a double otherwise */
-    if (big) { long double v = va_arg(va, long double); __CPROVER_assert((double)v == in_f[a] || (v != v && in_f[a] != in_f[a]), "[C14] a floating conversion with the L length modifier receives c_float of its argument as a long double"); }
-    else { double v = va_arg(va, double); __CPROVER_assert(v == in_f[a] || (v != v && in_f[a] != in_f[a]), "[C14] a floating conversion receives c_float of its argument"); }
+  va_list va; va_start(va, fmt); int ret = 0; size_t i = 0;
+  while (fmt[i] != 0) {
+    if (fmt[i] != '%') { cv_log((unsigned char)fmt[i]); ret++; i++; continue; }
+    if (fmt[i + 1] == '%') { cv_log('%'); ret++; i += 2; continue; }
+    size_t j = i + 1; while (fmt[j] != 0 && !cv_is_conv(fmt[j])) j++;
+    __CPROVER_assert(fmt[j] != 0, "[C14] a specification handed to the sink is complete");
+    int a = cv_spec_seen++;
+    __CPROVER_assert(a < NARGS_NEEDED, "[C14] no more specifications reach the sink than the format has");
+    int p = cv_spec_piece(a);
+    int same = 1; for (size_t k = 0; k <= j - i; k++) same = same && piece_text[p][k] == fmt[i + k]; same = same && piece_text[p][j - i + 1] == 0;
+    __CPROVER_assert(same, "[C14] each conversion specification reaches the sink verbatim (flags, width, precision, length modifier, conversion)");
+    char c = fmt[j];
+    if (c == 'd' || c == 'i' || c == 'u' || c == 'o' || c == 'x' || c == 'X' || c == 'c') { int64_t v = va_arg(va, int64_t); __CPROVER_assert(v == in_i[a], "[C14] an integer / character conversion receives c_int of its argument"); }
+    else if (c == 's') { char* v = va_arg(va, char*); __CPROVER_assert(v == argstr[a], "[C14] %s receives c_str of its argument"); }
+    else if (c == 'p') { var v = va_arg(va, var); __CPROVER_assert(v == arg_items[a], "[C14] %p receives the object itself"); }
+    else {
+      int big = 0; for (size_t k = i; k < j; k++) if (fmt[k] == 'L') big = 1;
+      /* libc reads the C value the specification names: a long double under the L length modifier, a double otherwise */
+      if (big) { long double v = va_arg(va, long double); __CPROVER_assert((double)v == in_f[a] || (v != v && in_f[a] != in_f[a]), "[C14] a floating conversion with the L length modifier receives c_float of its argument as a long double"); }
+      else { double v = va_arg(va, double); __CPROVER_assert(v == in_f[a] || (v != v && in_f[a] != in_f[a]), "[C14] a floating conversion receives c_float of its argument"); }
+    }
+    cv_log(1000 + a); ret += cv_ret[p]; i = j + 1;
   }
-  if (piece_kind[p] == K_STR) { char* v = va_arg(va, char*); __CPROVER_assert(v == argstr[a], "[C14] %s receives c_str of its argument"); }
-  if (piece_kind[p] == K_PTR) { var v = va_arg(va, var); __CPROVER_assert(v == arg_items[a], "[C14] %p receives the object itself"); }
   va_end(va);
-  cv_running += cv_ret[p];
-  return cv_ret[p];
+  cv_running += ret;
+  return ret;
 }
 int cv_show_to(var self, var o, int pos) {      /* %$: show_to of the argument at the current position */
-  __CPROVER_assert(cv_piece < NPIECES && piece_kind[cv_piece] == K_SHOW, "[C14] %$ calls show exactly for a %$ specification");
-  int p = cv_piece++;
-  __CPROVER_assert(self == arg_items[piece_arg[p]] && o == out && pos == cv_running, "[C14] %$ shows the next argument at the current position");
-  cv_shows++; cv_running += cv_ret[p];
+  int a = cv_spec_seen++;
+  __CPROVER_assert(a < NARGS_NEEDED && piece_kind[cv_spec_piece(a)] == K_SHOW, "[C14] %$ calls show exactly for a %$ specification");
+  int p = cv_spec_piece(a);
+  __CPROVER_assert(self == arg_items[a] && o == out && pos == cv_running, "[C14] %$ shows the next argument at the current position");
+  cv_shows++; cv_log(1000 + a); cv_running += cv_ret[p];
   return cv_running;
 }
 static void build_args(void) {
@@ -117,8 +137,15 @@ void h_print(void) {
   COVER(1, "print_to called");
   int r = print_to_with(out, in_pos, FMT, args_tuple);
   ASSERT(NARGS_GIVEN >= NARGS_NEEDED, "[C14][C12] too few arguments raise FormatError");
-  ASSERT(cv_piece == NPIECES, "[C14] every literal run, %% and specification of the format is written, each once");
-  int sum = in_pos; for (int p = 0; p < NPIECES; p++) sum += cv_ret[p];
+  /* the expected abstract output, from the driver's independent tokenisation */
+  int ex[CV_MAXOUT]; int exn = 0; int sum = in_pos;
+  for (int p = 0; p < NPIECES; p++) {
+    if (piece_kind[p] == K_LIT) { for (size_t k = 0; piece_text[p][k] != 0; k++) { if (exn < CV_MAXOUT) ex[exn] = (unsigned char)piece_text[p][k]; exn++; sum++; } }
+    else if (piece_kind[p] == K_PCT) { if (exn < CV_MAXOUT) ex[exn] = '%'; exn++; sum++; }
+    else { if (exn < CV_MAXOUT) ex[exn] = 1000 + piece_arg[p]; exn++; sum += cv_ret[p]; }
+  }
+  ASSERT(cv_out_n == exn && exn <= CV_MAXOUT, "[C14] everything the format says is written, each literal character and each specification once, and nothing else");
+  for (int k = 0; k < exn && k < CV_MAXOUT; k++) ASSERT(cv_outs[k] == ex[k], "[C14] the characters and conversions reach the sink in the order of the format");
   ASSERT(r == sum, "[C14] the returned position is the start position plus the number of characters written");
 }
 /* ---- C15: the numeric readers use a conversion as wide as the value, consume what the writer wrote ---- */
